@@ -25,6 +25,14 @@ RACE_TREES = {
               N(10, R, "ldd", "lnk", "a/b/../b/c"), N(11, 7, "f", "file"), N(12, R, "e", "dir")] + STAGE,
 }
 
+# "mirror": below the root a chain of directories spells the HOST path of the root's parent P (the harness expands
+# "@HOSTPARENT"); when the attacker moves  root/<host path of P>/d  to  P/d , the lexical in-root position of the walk
+# reads exactly like the real host path of the escaped object -- a string comparison of the two that forgets which
+# part is the root prefix accepts the escape
+MIRROR_TREE = [dict(id=30, p=R, n="@HOSTPARENT", k="mirror"), N(31, 30, "d", "dir"), N(32, 31, "in", "file")] + STAGE
+MIRROR_PATHS = ["@HOSTPARENT/d/../out/secret", "@HOSTPARENT/d/..", "@HOSTPARENT/d/../out", "@HOSTPARENT/d/../root"]
+MIRROR_ACTS = [dict(act="rename", sp=30, sn="d", dp=P, dn="d", prio=1)]
+
 LOOKUP_PATHS = {
     "chain": ["a/b/c/f", "a/b/../b/c", "a/b/c/../../../e", "a/b/c/..", "a/../a/b/../../e"],
     "links": ["la/c/f", "a/b/up", "a/b/up/a", "ldd/f", "ldd", "la/../b/c", "a/b/c/../up", "la/up/e/.."],
